@@ -31,6 +31,10 @@ class Contract:
     raises: list[tuple[str, str]] = field(default_factory=list)
     # exceptions that may escape without a stated condition (e.g. propagated from callbacks)
     may_raise: list[str] = field(default_factory=list)
+    # postconditions that must hold on *every* exceptional exit (e.g. "options are reset")
+    exc_ensures: list[str] = field(default_factory=list)
+    # clauses checked in the caller's state right before each call of the named callee
+    call_requires: dict[str, list[str]] = field(default_factory=dict)
     loops: dict[int, Loop] = field(default_factory=dict)
     locals: dict[str, str] = field(default_factory=dict)  # declared sorts of locals
     globals: dict[str, str] = field(default_factory=dict)  # symbolic module globals, e.g. config.X
